@@ -1,75 +1,28 @@
-import DarkluaModel.Shared.VisitorSound.Heap.HRel
+import DarkluaModel.Shared.VisitorSound.HeapV.VLinks
 /-!
-# The general renumbering relation (statement only)
+# The general renumbering relation — now PROVED (stage 4, `HeapV/`)
 
-The proved development (`HRel.lean` …) renumbers CELLS only: table ids, closure ids and hence
-values are equal on both sides. The general relation below also renumbers tables and closures
-(values are related through the injections). Its fundamental lemma — the semantics is invariant
-under heap renumbering — is stated as `renumbering_invariance : Prop` and is NOT proved; everything
-proved for the cell fragment (congruence closure, links, lifting) would carry over once it is,
-with `AEq` on values replaced by `VRel`. What it would add: dropping / moving allocations of tables
-and closures (`local x = {}` unused, `convert_function_to_assignment` on nested fields).
+Round 2 left the invariance of the semantics under renumbering of cells, tables and closures as a
+statement (`def renumbering_invariance : Prop`). Stage 4 (`Shared/VisitorSound/HeapV/*`,
+`Shared/VisitorSoundHeapV.lean`) proves it, in the following corrected form:
+
+* the state relation is `Sem.HeapV.SRel Q β` (`β : Inj`, partial injections on cells, tables, closures;
+  values related by `VRel`); in addition to what the round-2 statement required it demands
+  `β.t stringLibId stringLibId` — indexing a string reads the `string` library table, so the two
+  library tables must correspond (without it the round-2 statement is FALSE);
+* closures are related when their bodies are `Q`-related and their environments agree outside a dead set
+  (the round-2 statement asked for equal bodies; `VQ` contains the diagonal on every body);
+* the oracle must be flat (`OracleFlat ρ`), as anticipated.
 -/
-namespace DarkluaModel.Sem.Heap
-variable {N : NumOps}
+namespace DarkluaModel.Sem.HeapV
 
-structure Inj3 where
-  cell : Nat → Nat → Prop
-  tbl : Nat → Nat → Prop
-  clo : Nat → Nat → Prop
+/-- **The semantics is invariant under renumbering of cells, tables and closures** (garbage allowed on
+both sides): the same chunk on related states gives related results, hence equal outcomes. -/
+theorem renumbering_invariance {N : NumOps} (ρ : ExtOracle N) (hρ : OracleFlat ρ) (n : Nat) (b : Block)
+    {β : Inj} {σ0 σ0' : State N} (hs : SRel VQ β σ0 σ0') :
+    RRel VQ β AVs (runChunk ρ n b σ0) (runChunk ρ n b σ0') ∧
+      observe (runChunk ρ n b σ0') = observe (runChunk ρ n b σ0) :=
+  have h : VR [] (.b b) (.b b) [] := .reflB (fun _ h => by cases h)
+  ⟨runChunk_rel ρ hρ n h hs, runChunk_vr ρ hρ n h hs⟩
 
-def Inj3.le (ι ι' : Inj3) : Prop :=
-  (∀ a b, ι.cell a b → ι'.cell a b) ∧ (∀ a b, ι.tbl a b → ι'.tbl a b) ∧ (∀ a b, ι.clo a b → ι'.clo a b)
-
-def VRel (ι : Inj3) : Val N → Val N → Prop
-  | .nil, .nil => True
-  | .bool a, .bool b => a = b
-  | .num a, .num b => a = b
-  | .str a, .str b => a = b
-  | .builtin a, .builtin b => a = b
-  | .tbl a, .tbl b => ι.tbl a b
-  | .fn a, .fn b => ι.clo a b
-  | _, _ => False
-
-def TRel (ι : Inj3) (t t' : Table N) : Prop :=
-  Forall2 (fun p q => VRel ι p.1 q.1 ∧ VRel ι p.2 q.2) t.entries t'.entries ∧ OptRel ι.tbl t.mt t'.mt
-
-/-- closures with the SAME body, environments related cell-wise on every name -/
-def CRelG (ι : Inj3) (c c' : Closure N) : Prop :=
-  c.body = c'.body ∧ Forall2 (VRel ι) c.varargs c'.varargs ∧
-    ∀ n, OptRel ι.cell (lookupAssoc n c.env) (lookupAssoc n c'.env)
-
-def injective (r : Nat → Nat → Prop) : Prop := ∀ a b a' b', r a b → r a' b' → (a = a' ↔ b = b')
-
-structure SRelG (ι : Inj3) (σ σ' : State N) : Prop where
-  globals : Forall2 (fun p q => p.1 = q.1 ∧ VRel ι p.2 q.2) σ.globals σ'.globals
-  trace : σ'.trace = σ.trace
-  injC : injective ι.cell
-  injT : injective ι.tbl
-  injF : injective ι.clo
-  cells : ∀ a b, ι.cell a b → ∃ v v', σ.cells[a]? = some v ∧ σ'.cells[b]? = some v' ∧ VRel ι v v'
-  tables : ∀ a b, ι.tbl a b → ∃ t t', σ.tables[a]? = some t ∧ σ'.tables[b]? = some t' ∧ TRel ι t t'
-  closures : ∀ a b, ι.clo a b → ∃ c c', σ.closures[a]? = some c ∧ σ'.closures[b]? = some c' ∧ CRelG ι c c'
-
-def RRelG (ι : Inj3) (r r' : Res N (List (Val N))) : Prop :=
-  match r, r' with
-  | .ok vs σ, .ok vs' σ' => ∃ ι', ι.le ι' ∧ Forall2 (VRel ι') vs vs' ∧ SRelG ι' σ σ'
-  | .err v σ, .err v' σ' => ∃ ι', ι.le ι' ∧ VRel ι' v v' ∧ SRelG ι' σ σ'
-  | .timeout, .timeout => True
-  | _, _ => False
-
-/-- the external functions return no heap references (otherwise their results would have to be
-renumbered too) -/
-def OracleFlat (ρ : ExtOracle N) : Prop :=
-  ∀ name k args, ∀ v ∈ ρ name k args, match v with | .tbl _ => False | .fn _ => False | _ => True
-
-/-- **Not proved.** The reference semantics is invariant under renumbering of cells, tables and
-closures (garbage allowed on both sides): running the same chunk on related states gives related
-results (hence equal canonical values and traces), provided the external-call oracle is used with
-equal canonical arguments — which `State.canon` guarantees since it renders tables structurally
-and closures as `fn`. -/
-def renumbering_invariance : Prop :=
-  ∀ (N : NumOps) (ρ : ExtOracle N), OracleFlat ρ → ∀ (n : Nat) (b : Block) (ι : Inj3) (σ σ' : State N),
-    SRelG ι σ σ' → RRelG ι (runChunk ρ n b σ) (runChunk ρ n b σ')
-
-end DarkluaModel.Sem.Heap
+end DarkluaModel.Sem.HeapV
